@@ -44,14 +44,11 @@ Qed.
 Theorem corr_model c ops : corr_ok (model_case c ops) = true.
 Proof. unfold corr_ok, model_case, model_obs. cbn [k_cfg k_ops k_obs]. apply (corr_from c ops cli_init). Qed.
 
-(* the C08 checker on the model's own run of the witness histories: exactly the clauses the model
-   refutes, at the operation where they fail *)
-Theorem c08_flags_partial_acceptance : c08_where (model_case cfg_w witness_partial) = Some (0%nat, B_MIRROR, sv_init).
+(* the C08 checker accepts the model's own run of the two former counter-examples (7.1-d, 7.1-i) *)
+Theorem c08_accepts_partial_acceptance : c08_code (model_case cfg_w witness_partial) = 0%nat.
 Proof. vm_compute. reflexivity. Qed.
-Theorem c08_flags_window_disconnect :
-  exists m, c08_where (model_case cfg_w witness_window_disconnect) = Some (0%nat, m, sv_init) /\
-            Nat.land m B_WAIT = B_WAIT /\ Nat.land m B_MIRROR = B_MIRROR.
-Proof. eexists. split; [vm_compute; reflexivity|]. split; vm_compute; reflexivity. Qed.
+Theorem c08_accepts_window_disconnect : c08_code (model_case cfg_w witness_window_disconnect) = 0%nat.
+Proof. vm_compute. reflexivity. Qed.
 (* ... and it accepts the model's run of a clean history (accept two namespaces, emit with callback,
    the server ends one, emit on it raises, transport loss, emit raises) *)
 Theorem c08_accepts_clean : c08_code (model_case cfg_w witness_clean) = 0%nat.
